@@ -104,6 +104,7 @@ func runC11(c *Ctx) {
 		"C11.4 the client applies a snapshot only at EndOfSnapshot, with the buffered events and that event's index; NewSnapshotToFollow resets the view first; the view index is assigned only from the delivered index and only after the view accepted the events",
 		"C11.5 every topic that event generators emit has a registered snapshot handler",
 		"C11.6 event generation is complete over the change kinds it distinguishes: in the service-health generator every non-delete service change reaches the rename / destination-change fix-up before any early exit, every delete emits a deregistration; every mapped config-entry change emits an event; every generator's error aborts the commit and its events are forwarded",
+		"C11.9 a snapshot handler reads only those fields of the subscription subject that the subject's String() — the key for snapshot caching and event routing — also reads",
 		"C11.8 no function of the stream package (nor an event payload method) writes into an event slice it was handed — element stores or the in-place filter idiom — because published batches are shared by all subscribers",
 		"C11.7 snapshot splice: the live buffer is joined at the first item with an index strictly larger than the snapshot's, the end-of-snapshot marker carries the snapshot's index; a subscription resumes without snapshot only when the requested index is still at the buffer head, and a stale non-zero index always gets NewSnapshotToFollow first",
 	}
@@ -136,6 +137,7 @@ func runC11(c *Ctx) {
 	c11Client(c)
 	c11Splice(c)
 	c11SharedEventsImmutable(c)
+	c11SubjectKeys(c)
 }
 
 // ---- C11.2
